@@ -66,6 +66,8 @@ var ingressAnnotations = []annChoice{
 	{"var-namespace", []string{"true"}},
 	{"health-check-uri", []string{"/hz"}},
 	{"blue-green-deploy", []string{"app=s1,1", "v=1=1,v=2=3"}},
+	{"blue-green-header", []string{"X-Svc:v", "X-Svc:app"}},
+	{"blue-green-cookie", []string{"SVC:v"}},
 	{"limit-connections", []string{"5"}},
 	{"ssl-passthrough", []string{"true"}},
 	{"redirect-to", []string{"https://elsewhere.local"}},
@@ -401,6 +403,11 @@ func (g *gen) sanitize(o client.Object) {
 			}
 		}
 	}
+	if g.opt.Avoid["frontend_auth_no_alias"] && ing.Annotations[annPrefix+"auth-external-placement"] == "frontend" {
+		// KF-frontend-auth-alias: frontend placed rules do not know the aliases of the host
+		delete(ing.Annotations, annPrefix+"server-alias")
+		delete(ing.Annotations, annPrefix+"server-alias-regex")
+	}
 	if g.opt.Avoid["frontend_auth_host_exclusive"] {
 		// frontend placement is applied per host from the merged annotations of every ingress
 		// that names the host (KF-frontend-auth-host-scoped): a frontend-placed ingress shares
@@ -547,6 +554,9 @@ func (g *gen) genEndpoints(i int, n int) (*api.Endpoints, []*api.Pod) {
 	}
 	for _, a := range addrs {
 		lbl := map[string]string{"app": d.name, "v": fmt.Sprint(1 + g.pick(2))}
+		if g.chance(1, 4) {
+			delete(lbl, "v") // a pod outside every blue/green group
+		}
 		var cports []epPort
 		for _, p := range ports {
 			n := p.Name
